@@ -216,7 +216,23 @@ def run_C05(repo, tier, seed):
             failures.append({"key": "C05:" + r.split(":")[0][:40], "input": {"level_ranges": ranges, "crossings": values}, "observed": r})
             if len(failures) >= 3:
                 break
-    return {"bound": "connected overlap structures of 2-3 (thorough: 4) series with contiguous level ranges within 5 levels, crossing values on a quarter lattice",
+        # the same structure with every series crossing one shared level at exactly the same value (intervals that start on
+        # a grid level all cross it at 0): the equations of that level have a zero right-hand side and still bind the offsets
+        shared = [L for L in range(min(lo for lo, _ in ranges), max(hi for _, hi in ranges) + 1)
+                  if sum(1 for lo, hi in ranges if lo <= L <= hi) >= 2]
+        if shared:
+            L = shared[rng.randrange(len(shared))]
+            tied = [list(v) for v in values]
+            for i, (lo, hi) in enumerate(ranges):
+                if lo <= L <= hi:
+                    tied[i][L - lo] = 0.0
+            ev += 1
+            r = check_find_offsets(fo, ranges, tied)
+            if r:
+                failures.append({"key": "C05:tied-level:" + r.split(":")[0][:30], "input": {"level_ranges": ranges, "crossings": tied, "tied_level": L}, "observed": r})
+                if len(failures) >= 3:
+                    break
+    return {"bound": "connected overlap structures of 2-3 (thorough: 4) series with contiguous level ranges within 5 levels, crossing values on a quarter lattice, each also with one shared level crossed at the same value by all its series",
             "evaluations": ev, "distinct": len(distinct), "exhaustive": False, "failures": failures, "samples": samples}
 
 
